@@ -124,6 +124,9 @@ type ExifRec struct {
 	// while the note is read)
 	NoteTags int
 	Make     string
+	// DNG: the first directory carries a DNGVersion tag (BYTE x4, major version first): a file
+	// sniffed as plain TIFF is then a DNG file; other containers keep their type
+	DNG bool
 }
 
 type RecOpts struct {
@@ -345,6 +348,10 @@ func GenExifRec(r *core.Rng, o RecOpts) *ExifRec {
 		rec.IFD0.Add(0x0101, putShortOrLong(r, v, true))
 		u("Exif.ImageHeight", uint64(v))
 	}
+	if r.Chance(1, 12) && !o.NikonBigNote {
+		rec.IFD0.Add(0xc612, ByteV(1, byte(r.Pick(1, 3, 4, 6, 7)), byte(r.Pick(0, 0, 1)), 0))
+		rec.DNG = true
+	}
 	if has() {
 		v := uint16(r.Range(1, 8))
 		if r.Chance(1, 5) {
@@ -436,9 +443,7 @@ func GenExifRec(r *core.Rng, o RecOpts) *ExifRec {
 				t = append(t, r.Bytes(8*n)...)
 				note = append([]byte("Nikon\x00\x02\x10\x00\x00"), t...)
 				rec.NoteTags = n
-				// (the library labels a file with a Nikon type-3 note as NEF whatever its container;
-				// the label is not among the values the properties speak about)
-				e.Any["Exif.ImageType"] = true
+				// (a plain TIFF with a Nikon type-3 note is a NEF file; other containers keep their type)
 			}
 		default:
 			note = r.Bytes(r.Pick(0, 3, 4, 5, 18, 19, 60, 300))
